@@ -102,7 +102,10 @@ func c08Run(e *vEnv, c c08Case) (key, msg string, stats map[string]bool) {
 		case "track", "validate", "ingest":
 			reg, err := c08MakeReg(e, o)
 			if err != nil {
-				return "harness", fmt.Sprintf("step %d %v: cannot build registration: %v", step, o, err), stats
+				// e.g. an IPv6 registration whose seed selects a subnet group without IPv6 subnets:
+				// the station refuses the message, nothing is registered
+				stats["registration-refused"] = true
+				continue
 			}
 			k := c08Key(e, reg)
 			ent, exists := model[k]
@@ -142,7 +145,8 @@ func c08Run(e *vEnv, c c08Case) (key, msg string, stats map[string]bool) {
 		case "connect":
 			reg, err := c08MakeReg(e, o)
 			if err != nil {
-				return "harness", fmt.Sprintf("step %d %v: cannot build registration: %v", step, o, err), stats
+				stats["registration-refused"] = true
+				continue
 			}
 			k := c08Key(e, reg)
 			id := e.rm.registeredDecoys.transports[reg.Transport].GetIdentifier(reg)
@@ -355,6 +359,10 @@ func c08Gen(rt *rapid.T) c08Case {
 		case "sweep":
 		default:
 			o.Secret = rapid.IntRange(0, 3).Draw(rt, "secret")
+			if rapid.IntRange(0, 2).Draw(rt, "widesecret") == 0 {
+				// identifiers are raw HMAC / key bytes: vary them widely (data-dependent handling)
+				o.Secret = rapid.IntRange(4, 400).Draw(rt, "secret2")
+			}
 			o.TT = rapid.IntRange(0, 2).Draw(rt, "tt")
 			o.V6 = rapid.Bool().Draw(rt, "v6")
 			if rapid.IntRange(0, 3).Draw(rt, "ovrp") == 0 {
